@@ -405,7 +405,15 @@ impl<'a> OpenResponsesSsePipe<'a> {
     }
 
     async fn push_sse_str(&mut self, chunk: &str) -> bool {
-        let parsed = self.decoder.push(chunk);
+        let mut parsed = self.decoder.push(chunk);
+        // `[DONE]` ends the stream: the caller stops reading after it, so anything that happens
+        // to share a chunk with the marker must not be framed either (chunking-invariance).
+        if let Some(done_at) = parsed
+            .iter()
+            .position(|event| event.kind == ParsedEventKind::Done)
+        {
+            parsed.truncate(done_at + 1);
+        }
         if parsed.is_empty() {
             return false;
         }
